@@ -64,6 +64,16 @@ impl Resp {
     pub fn stalled(body: Vec<u8>, missing: usize) -> Self {
         Resp { status: 997, headers: vec![("X-Missing".into(), missing.to_string())], body }
     }
+    /// `inner`, but not before the returned gate has been opened (or ten seconds have passed): a
+    /// request that stays in flight while the harness does something else (status 996).
+    pub fn held(inner: Resp) -> (Self, Arc<HoldGate>) {
+        let gate = Arc::new(HoldGate { open: Mutex::new(false), cv: std::sync::Condvar::new() });
+        let id = HOLD_IDS.fetch_add(1, Ordering::SeqCst);
+        if let Ok(mut m) = holds().lock() {
+            m.insert(id, (gate.clone(), inner));
+        }
+        (Resp { status: 996, headers: vec![("X-Hold".into(), id.to_string())], body: Vec::new() }, gate)
+    }
     pub fn xml(body: String) -> Self {
         Resp {
             status: 200,
@@ -82,6 +92,34 @@ impl Resp {
             body,
         }
     }
+}
+
+pub struct HoldGate {
+    open: Mutex<bool>,
+    cv: std::sync::Condvar,
+}
+impl HoldGate {
+    pub fn release(&self) {
+        if let Ok(mut g) = self.open.lock() {
+            *g = true;
+        }
+        self.cv.notify_all();
+    }
+    fn wait(&self) {
+        let Ok(mut g) = self.open.lock() else { return };
+        let t0 = std::time::Instant::now();
+        while !*g && t0.elapsed() < std::time::Duration::from_secs(10) {
+            match self.cv.wait_timeout(g, std::time::Duration::from_millis(200)) {
+                Ok((ng, _)) => g = ng,
+                Err(_) => return,
+            }
+        }
+    }
+}
+static HOLD_IDS: AtomicU64 = AtomicU64::new(1);
+fn holds() -> &'static Mutex<HashMap<u64, (Arc<HoldGate>, Resp)>> {
+    static HOLDS: OnceLock<Mutex<HashMap<u64, (Arc<HoldGate>, Resp)>>> = OnceLock::new();
+    HOLDS.get_or_init(|| Mutex::new(HashMap::new()))
 }
 
 pub trait Scope: Send {
@@ -193,6 +231,19 @@ impl Sim {
                         sim.unrouted.fetch_add(1, Ordering::SeqCst);
                         Resp::status(404)
                     }
+                };
+                // a held reply: the scope's lock is free again, the request stays in flight
+                let resp = if resp.status == 996 {
+                    let id = resp.headers.iter().find(|(k, _)| k == "X-Hold").and_then(|(_, v)| v.parse::<u64>().ok()).unwrap_or(0);
+                    match holds().lock().ok().and_then(|mut m| m.remove(&id)) {
+                        Some((gate, inner)) => {
+                            gate.wait();
+                            inner
+                        }
+                        None => Resp::status(500),
+                    }
+                } else {
+                    resp
                 };
                 if resp.status == 998 || resp.status == 997 {
                     let stall = resp.status == 997;
